@@ -230,3 +230,20 @@ Example select_keeps_parallel_arcs :
   select_model slE [(0, 0); (1, 1); (2, 1); (3, 2); (4, 3)]%N sq [WalkWidth.hmap slE (Reach.c_map slC) (1, 3)%N] =
   Some [[(0, 1); (1, 2); (2, 3); (3, 4)]; [(0, 1); (1, 3); (3, 4)]]%N.
 Proof. vm_compute. reflexivity. Qed.
+
+(* ---- for the audit example of Props/C06_slots.v: a cycle 1 <-> 2 with a by-pass, and deciding "not connected" with the verified closure ---- *)
+From FP Require ReachProofs1.
+Definition brV : list node := [0; 1; 2; 3; 4; 5]%N.
+Definition brE : list PathEnc.edge := [(0, 1); (1, 2); (2, 1); (1, 3); (3, 5); (0, 4); (4, 5)]%N.
+Definition brC : Reach.cond :=
+  {| Reach.c_map := Reach.map_of [(0, 0); (1, 1); (2, 1); (3, 2); (4, 3); (5, 4)]%N 0%N;
+     Reach.c_edges := [(0, 1); (1, 2); (2, 4); (0, 3); (3, 4)]%N; Reach.c_topo := [0; 1; 2; 3; 4]%N |}.
+Lemma not_conn_by_closure (H : list PathEnc.edge) (u v : node) :
+  In u (nodes_of H) -> Reach.memN v (Reach.closure (nodes_of H) (Reach.succs_of H) u) = false -> ~ conn H u v.
+Proof.
+  intros Hu Hm Hc. apply conn_reach in Hc.
+  assert (Hin : In v (Reach.closure (nodes_of H) (Reach.succs_of H) u)).
+  { apply ReachProofs1.closure_correct_N; [apply NoDup_nodup| |exact Hu|exact Hc].
+    intros x z _ Hz. apply ReachProofs1.succs_of_In in Hz. exact (proj2 (nodes_of_in H (x, z) Hz)). }
+  apply ReachProofs1.memN_In in Hin. congruence.
+Qed.
